@@ -174,10 +174,12 @@ fn helper_def(m: usize) -> ModuleDef {
 /// exports collide on purpose — with its own name and with names of the core library
 pub const FIXTURE_MODULE: (&str, &str) = (
     "mz.koto",
-    "rd = || (size, type, string, list)\nexport size = 41\nexport type = 42\nexport string = 43\nexport list = 44\nexport mz = 5\nexport ez_1 = 6\nexport ez_2 = 7\nexport ez_3 = 8\nexport rdv = rd()\n",
+    "rd = || (size, type, string, list)\nexport size = 41\nexport type = 42\nexport string = 43\nexport list = 44\nexport mz = 5\nexport ez_1 = 6\nexport ez_2 = 7\nexport ez_3 = 8\nexport rdv = rd()\nexport ma1, {mb1, mc1 as md1} = 1, {mb1: 2, mc1: 3}\nexport zsub = {zc: 12}\nexport lazy_v = ||\n  import mzh\n  mzh.v\n",
 );
+/// a module next to the fixture module that only the fixture's own function imports
+pub const FIXTURE_HELPER: (&str, &str) = ("mzh.koto", "export v = 7\n");
 /// what `Step::Fixture` records, by kind
-pub const FIXTURE_VALUES: &[&str] = &["6", "(41, 42, 43, 44)", "60708"];
+pub const FIXTURE_VALUES: &[&str] = &["6", "(41, 42, 43, 44)", "60708", "(1, 2, 3)", "7", "12"];
 
 fn mname(i: usize) -> String {
     format!("m{}", (b'a' + i as u8) as char)
@@ -324,11 +326,32 @@ fn render_steps(out: &mut Vec<String>, indent: usize, steps: &[Step], module: us
                     out.push(format!("{pad}import mz as qz{id}"));
                     out.push(format!("{pad}val({id}, qz{id}.rdv)"));
                 }
-                _ => {
+                2 => {
                     out.push(format!("{pad}fm{id} = ||"));
                     out.push(format!("{pad}  from mz import ez_1 as qz{id}, ez_2, ez_3"));
                     out.push(format!("{pad}  return qz{id} * 10000 + ez_2 * 100 + ez_3"));
                     out.push(format!("{pad}val({id}, fm{id}())"));
+                }
+                3 => {
+                    // an exported multi-assignment with a nested map pattern among its targets
+                    out.push(format!("{pad}import mz as qz{id}"));
+                    out.push(format!("{pad}val({id}, (qz{id}.ma1, qz{id}.mb1, qz{id}.md1))"));
+                }
+                4 => {
+                    // the fixture's function imports its neighbour `mzh` lazily, while THIS script
+                    // exports something else under that name: names are looked up in the scope
+                    // of the module that contains the import
+                    out.push(format!("{pad}export mzh = 99"));
+                    out.push(format!("{pad}import mz as qz{id}"));
+                    out.push(format!("{pad}val({id}, qz{id}.lazy_v())"));
+                }
+                _ => {
+                    // importing from a name that a wildcard import made visible
+                    out.push(format!("{pad}fw{id} = ||"));
+                    out.push(format!("{pad}  from mz import *"));
+                    out.push(format!("{pad}  from zsub import zc"));
+                    out.push(format!("{pad}  return zc"));
+                    out.push(format!("{pad}val({id}, fw{id}())"));
                 }
             },
             Step::ReadCanary(id, r) => {
@@ -416,6 +439,7 @@ pub fn write_world(w: &World, scratch: &Scratch) {
     ensure_link(scratch);
     std::fs::write(scratch.dir.join("main.koto"), "# importing script\n").expect("write");
     std::fs::write(scratch.dir.join(FIXTURE_MODULE.0), FIXTURE_MODULE.1).expect("write");
+    std::fs::write(scratch.dir.join(FIXTURE_HELPER.0), FIXTURE_HELPER.1).expect("write");
     for i in 0..w.modules.len() {
         write_module(w, i, w.disk[i], scratch);
     }
@@ -732,7 +756,7 @@ pub fn gen_scenario(seed: u64) -> Scenario {
                 }
                 if r.chance(1, 4) {
                     let at = 1 + r.usize_below(top.len());
-                    top.insert(at, Step::Fixture(id(), r.below(3) as u8));
+                    top.insert(at, Step::Fixture(id(), r.below(6) as u8));
                 }
                 if export_top_level {
                     top.push(Step::TopAssign(1, 5));
@@ -1845,6 +1869,7 @@ pub fn replay(doc: &Value) -> (Option<(String, String)>, u64) {
     scratch.clear();
     std::fs::write(scratch.dir.join("main.koto"), "# importing script\n").expect("write");
     std::fs::write(scratch.dir.join(FIXTURE_MODULE.0), FIXTURE_MODULE.1).expect("write");
+    std::fs::write(scratch.dir.join(FIXTURE_HELPER.0), FIXTURE_HELPER.1).expect("write");
     let write_file = |f: &Value| {
         let name = f["module"].as_str().unwrap_or("");
         let text = f["text"].as_str().unwrap_or("");
